@@ -100,6 +100,15 @@ var glSpecs = []glSpec{
 	{"blocktimeindex", "Index", "marshalBinary", "btMarshal"},
 	{"blocktimeindex", "Index", "unmarshalBinary", "btUnmarshal"},
 	{"compactindexsized", "Header", "Load", "ciHeaderLoad"},
+	{"compactindexsized", "BucketHeader", "Hash", "ciEntryHash"},
+	{"compactindexsized", "DB", "GetValueSize", "ciGetValueSize"},
+	{"compactindexsized", "DB", "entryStride", "ciEntryStride"},
+	{"compactindexsized", "BucketHeader", "readFrom", "ciReadFrom"},
+	{"compactindexsized", "DB", "GetBucket", "ciGetBucket"},
+	{"compactindexsized", "Bucket", "loadEntry", "ciLoadEntry"},
+	{"compactindexsized", "Bucket", "Lookup", "ciBucketLookup"},
+	{"compactindexsized", "DB", "LookupBucket", "ciLookupBucket"},
+	{"compactindexsized", "DB", "Lookup", "ciDBLookup"},
 	{"bucketteer", "", "Hash", "bkHash"},
 	{"bucketteer", "", "readUint64Le", "bkReadUint64Le"},
 	{"bucketteer", "Reader", "Has", "bkReaderHas"},
@@ -116,10 +125,11 @@ type glExtern struct{ param, leanType string }
 
 var glExterns = map[string]glExtern{
 	"github.com/cespare/xxhash/v2.Sum64": {"xxSum64", "List UInt8 → UInt64"},
+	"github.com/rpcpool/yellowstone-faithful/compactindexsized.EntryHash64": {"entryHash64", "UInt32 → List UInt8 → UInt64"},
 }
 
 // functions whose Go errors are data (they inspect, compare and return error VALUES such as io.EOF)
-var glErrData = map[string]bool{"scfMultiReadAt": true, "uvrReadUvarint": true, "uvrReadByte": true, "oassFromReader": true, "oassSliceFromBytes": true, "bkReadUint64Le": true, "bkReaderHas": true}
+var glErrData = map[string]bool{"scfMultiReadAt": true, "uvrReadUvarint": true, "uvrReadByte": true, "oassFromReader": true, "oassSliceFromBytes": true, "bkReadUint64Le": true, "bkReaderHas": true, "ciReadFrom": true, "ciGetBucket": true, "ciLoadEntry": true, "ciBucketLookup": true, "ciLookupBucket": true, "ciDBLookup": true}
 
 var leanKeywords = map[string]bool{}
 
@@ -658,7 +668,10 @@ func (g *glGen) zero(t types.Type) (string, bool) {
 	if isErrorType(t) {
 		return "Go.Error.nil", true
 	}
-	if isNamed(t, "io", "ReaderAt") {
+	if isNamed(t, "io", "ReaderAt") || isNamed(t, "io", "SectionReader") {
+		return "(default : Go.ReaderAt)", true
+	}
+	if pt, ok := t.(*types.Pointer); ok && isNamed(pt.Elem(), "io", "SectionReader") {
 		return "(default : Go.ReaderAt)", true
 	}
 	if nt, ok := t.(*types.Named); ok {
@@ -744,6 +757,9 @@ func (g *glGen) structDefs() string {
 func namedStructsIn(t types.Type) []*types.Named {
 	switch u := t.(type) {
 	case *types.Named:
+		if isNamed(u, "io", "SectionReader") || isNamed(u, "bytes", "Reader") || isNamed(u, "bytes", "Buffer") {
+			return nil // given a meaning in GoSem, not translated as structures
+		}
 		if _, ok := u.Underlying().(*types.Struct); ok {
 			return []*types.Named{u.Origin()}
 		}
